@@ -155,7 +155,10 @@ def run_case(ctx, repo, case):
         if off is None:
             off = R.tp_offset_minutes(p)
         local = R.tp_instant(MODE, p) + off * 60
-        yr = R.rd_to_date(MODE, spec["rep"], int(local // 86400))[0]
+        day = int(local // 86400)
+        if p._hour_of_day == 24 and off == R.tp_offset_minutes(p):
+            day = R.tp_rd(MODE, p)      # 24:00 is printed on the spelled day
+        yr = R.rd_to_date(MODE, spec["rep"], day)[0]
         fits = abs(yr) <= 10 ** (4 + nd) - 1 if "+X" in fmt \
             else 0 <= yr <= 9999
         if fits:
